@@ -42,9 +42,16 @@ pub fn plan(tier: &str) -> (PropMeta, Vec<Job>) {
     let depth = 4;
     let a = alphabet(quick);
     let mut cj = make_cat_jobs("C10", &cfg, "credentials", &[], &a, depth, &[], if quick { 300 } else { 3000 }, false);
+    for j in cj.iter_mut() {
+        j.http_probe = true;
+    }
     if !quick {
         // one level deeper on the core alphabet
-        cj.extend(make_cat_jobs("C10", &cfg, "credentials-deep", &[], &alphabet(true), 5, &[], 3000, false));
+        let mut deep = make_cat_jobs("C10", &cfg, "credentials-deep", &[], &alphabet(true), 5, &[], 3000, false);
+        for j in deep.iter_mut() {
+            j.http_probe = true;
+        }
+        cj.extend(deep);
     }
     let jobs = cj
         .into_iter()
@@ -54,10 +61,10 @@ pub fn plan(tier: &str) -> (PropMeta, Vec<Job>) {
         id: "C10",
         level: "model_checking",
         rule: format!(
-            "every history of exactly {depth} operations over {:?} is executed over real TCP connections; after every step every candidate credential (each username x each password ever used plus a wrong one, every raw token ever issued plus a forged one) is tried on a fresh connection and compared with the validity model, a login/get_me/logout/get_me probe is run, and every file under the data directory is searched for every password and raw token (plain, hex, base64)",
+            "every history of exactly {depth} operations over {:?} is executed over real TCP connections; after every step (in canonical states also over HTTP/JSON, where both transports must judge every credential alike and an access token presented again after its session logged out must be refused) every candidate credential (each username x each password ever used plus a wrong one, every raw token ever issued plus a forged one) is tried on a fresh connection and compared with the validity model, a login/get_me/logout/get_me probe is run, and every file under the data directory is searched for every password and raw token (plain, hex, base64)",
             a.iter().map(|o| o.short()).collect::<Vec<_>>()
         ),
-        bounds: json!({"depth": depth, "depth_core_alphabet_thorough": 5, "alphabet": a.iter().map(|o| o.short()).collect::<Vec<_>>(), "transport": "tcp", "token_expiry_s": 10, "clock_jump_s": 11}),
+        bounds: json!({"depth": depth, "depth_core_alphabet_thorough": 5, "alphabet": a.iter().map(|o| o.short()).collect::<Vec<_>>(), "transport": "tcp commands; credentials probed over tcp and http", "token_expiry_s": 10, "clock_jump_s": 11}),
         assumptions: vec![
             "clock frozen and owned through the iggy_verif hook (token expiry is crossed by an explicit jump of 11 s over a 10 s expiry; the exact boundary instant is not probed)".into(),
             "bcrypt salts and raw tokens are random; the model never predicts them, it records what the server returned".into(),
@@ -283,6 +290,7 @@ impl COracle for C10 {
             return Err(format!("command panicked: {}", out.err));
         }
         self.model_step(op, out)?;
+        w.http_probe_enabled = ctx.canonical;
         let now = iggy::verif::clock_peek();
         let mut obs = String::new();
         // every username x every password
@@ -350,6 +358,7 @@ impl COracle for C10 {
         }
         if ctx.canonical {
             w.logout_probe()?;
+            w.http_logout_probe()?;
             ctx.res.bump("logout_probes");
             // no secret in any file
             let mut secrets: Vec<String> = PWS.iter().map(|s| s.to_string()).collect();
